@@ -258,10 +258,11 @@ def anonymous_ids(node, _out=None):
 
 
 def normalise_anon(text, ids=None):
-    """Replace each reserved anonymous identifier number by its rank among the numbers present."""
-    found = sorted({int(x[1]) for x in _ANON_ANY.findall(text)})
-    rank = {n: i for i, n in enumerate(found)}
-    return _ANON_ANY.sub(lambda m: "%s#%d" % (m.group(1), rank[int(m.group(2))]), text), found
+    """Replace each reserved anonymous identifier number by the order of its first appearance."""
+    rank = {}
+    for x in _ANON_ANY.findall(text):          # rank = order of first appearance in the text
+        rank.setdefault(int(x[1]), len(rank))
+    return _ANON_ANY.sub(lambda m: "%s#%d" % (m.group(1), rank[int(m.group(2))]), text), sorted(rank)
 
 
 def traced_compile(P, files, main, *, tid, mode="inproc", key="", want_outputs=False, back_end=True, render=True,
